@@ -31,6 +31,7 @@ RULE = (
     "field-name groups); observed targets = names carrying '_M' after ProcessingPipeline.apply(rule). "
     "Non-trivial = >= 2 non-empty groups, or an expression, or a state/applied condition."
 )
+RULE += (" " + 'Regex field lists include patterns with inline flags and numbered back references.')
 ASSUMPTIONS = [
     "an empty condition group holds whatever its linking / negation flag (an item without conditions always applies)",
     "detection items are generated without value modifiers other than fieldref, so value conditions see the source values",
